@@ -85,10 +85,17 @@ def mutate(r, text, spans):
 
 def rand_options(r, dia):
     o = {"dia": dia, "mfd": r.choice([-1, 0, 1, 1]), "fold": r.choice([-1, 0, 0, 1]), "prefix": r.choice([-1, 0, 0, 1]),
-         "ews": r.choice(["", "", "", "\x0b", "\x0c"]), "eeol": r.choice(["", "", "", "\x0b", "\x0c"]),
+         # extra whitespace / end-of-line characters: the C0 controls VT, FF and — cif.h allows them explicitly — C1 controls such as NEL
+         # (bytes >= 0x80 in the option string), singly and two at a time
+         "ews": r.choice(["", "", "", "\x0b", "\x0c", "\x85", "\x0b\x90", "\x9f"]), "eeol": r.choice(["", "", "", "\x0b", "\x0c", "\x85", "\x9c", "\x0c\x85"]),
          "nutf8": 1 if r.random() < 0.05 else 0, "target": r.choice(["e", "e", "n", "p"])}
     if o["ews"] and o["ews"] == o["eeol"]:
         o["ews"] = ""
+    if dia == 1:
+        # CIF 1.1 mode: a C1 control is outside the CIF 1.1 character set whatever class the option gives it (the scanner reports it
+        # before looking at its class); the model does not follow that corner — C1 extras are generated for CIF 2.0 only
+        o["ews"] = "".join(c for c in o["ews"] if ord(c) < 0x80)
+        o["eeol"] = "".join(c for c in o["eeol"] if ord(c) < 0x80)
     return o
 
 
